@@ -11,6 +11,7 @@ import (
 	"context"
 	"errors"
 	"io"
+	"time"
 
 	"github.com/benbjohnson/litestream/internal/vx"
 	"github.com/superfly/ltx"
@@ -343,4 +344,91 @@ func vxDstPages(min ltx.TXID) []vxPg {
 		return []vxPg{{pgno: 1, tag: 7}}
 	}
 	return []vxPg{{pgno: 1, tag: 7}}
+}
+
+// VxC06DBCompact: DB.Compact(1) as the store calls it - the DB's own compactor
+// with its local-file hooks wired by NewDB, followed by level-0 retention - in a
+// world where the local level-0 directory and the replica differ the ways they do
+// in practice: the local directory holds only a suffix of what the replica holds
+// (after a reset or a restore the baseline is the replica's newest file), and may
+// be one file ahead of the replica (DB.Sync runs more often than Replica.Sync).
+// The new level-1 file must start where level 1 ended, end at the newest
+// replicated file, equal the replica's level-0 files applied in order, and the
+// retention pass that follows must keep the newest state restorable.
+func VxC06DBCompact() {
+	n := vx.Param("N", 3)
+	dir := vx.TempDir()
+	db := NewDB(dir + "/app.db")
+	c := &vxStoreClient{}
+	r := vx.Choose("replicated", 2, n) // the replica holds level 0 = 1..r
+	var files []*vxLTX
+	for t := 1; t <= r+1; t++ {
+		f := &vxLTX{level: 0, min: ltx.TXID(t), max: ltx.TXID(t), commit: 2, ts: int64(1000 + t), pages: []vxPg{{pgno: 1, tag: vx.U64("tag")}}}
+		if t == 1 {
+			f.pages = []vxPg{{pgno: 1, tag: vx.U64("tag")}, {pgno: 2, tag: vx.U64("tag2")}}
+		}
+		files = append(files, f)
+		if t <= r {
+			c.put(f)
+		}
+	}
+	// level 1 already covers 1..a (a = 0: no level-1 file yet)
+	a := vx.Choose("compacted", 0, r-1)
+	if a > 0 {
+		c.put(&vxLTX{level: 1, min: 1, max: ltx.TXID(a), commit: 2, ts: int64(1000 + a),
+			pages: []vxPg{{pgno: 1, tag: files[a-1].pages[0].tag}, {pgno: 2, tag: files[0].pages[1].tag}}})
+	}
+	// local directory: files s..m with 1 <= s <= r and m in {r, r+1}
+	s := vx.Choose("localFrom", 1, r)
+	m := r
+	if vx.Fault("localAhead") {
+		m = r + 1
+	}
+	vx.FSMkdirAll(db.LTXLevelDir(0))
+	for t := s; t <= m; t++ {
+		vx.FSWriteFile(db.LTXPath(0, ltx.TXID(t), ltx.TXID(t)), vxEncodeLTX(files[t-1]))
+	}
+	db.Replica = NewReplicaWithClient(db, c)
+	db.compactor.client = c
+	if vx.Fault("posCached") {
+		db.Replica.SetPos(ltx.Pos{TXID: ltx.TXID(r)})
+	}
+	db.L0Retention = 10 * time.Second
+	for _, f := range c.files {
+		f.CreatedAt = vx.TimeAgo(time.Now(), vx.Range("age", 0, 20))
+	}
+	ctx := context.Background()
+	info, err := db.Compact(ctx, 1)
+	vx.Assert("db-compaction-succeeds", err == nil && info != nil)
+	if err != nil || info == nil {
+		return
+	}
+	vx.Assert("db-compaction-continues-level-1", info.Level == 1 && int(info.MinTXID) == a+1 && int(info.MaxTXID) == r)
+	out, derr := vxDecodeLTX(c.data[vxKey(1, info.MinTXID, info.MaxTXID)])
+	vx.Assert("db-compaction-output-decodes", derr == nil)
+	if derr != nil {
+		return
+	}
+	// equals the replica's level-0 files a+1..r applied in order
+	want1 := files[r-1].pages[0].tag
+	ok := out.commit == 2 && len(out.pages) >= 1 && out.pages[0].pgno == 1 && out.pages[0].tag == want1
+	if a == 0 {
+		ok = ok && len(out.pages) == 2 && out.pages[1].pgno == 2 && out.pages[1].tag == files[0].pages[1].tag
+	} else {
+		ok = ok && len(out.pages) == 1
+	}
+	vx.Assert("db-compaction-equals-ordered-application", ok)
+	vx.Assert("level-1-contiguous", db.compactor.VerifyLevelConsistency(ctx, 1) == nil)
+	// after the retention pass that DB.Compact runs: the newest replicated state is
+	// still restorable and level 0 is a contiguous run ending at the newest file
+	plan, perr := CalcRestorePlan(ctx, &vxPlanClient{files: c.files}, 0, time.Time{}, vxLogger())
+	vx.Assert("latest-still-restorable", perr == nil && len(plan) > 0 && int(plan[len(plan)-1].MaxTXID) == r)
+	l0 := c.level(0)
+	okRun := len(l0) > 0 && int(l0[len(l0)-1].MaxTXID) == r
+	for i := 1; i < len(l0); i++ {
+		if l0[i].MinTXID != l0[i-1].MaxTXID+1 {
+			okRun = false
+		}
+	}
+	vx.Assert("l0-contiguous-suffix", okRun)
 }
